@@ -1037,13 +1037,23 @@ Proof.
   cbn [forallb fst snd] in *. subst o'. rewrite Hf, Hx, Hp, IH. reflexivity.
 Qed.
 
+Lemma xpile_samewidth_stat a b c :
+  Forall2 prel_stat a b ->
+  forallb (fun it : popt * xinfo => x_flow (snd it) || (fst (x_pack (snd it)) =? c)) a
+  = forallb (fun it : popt * xinfo => x_flow (snd it) || (fst (x_pack (snd it)) =? c)) b.
+Proof.
+  intro H. induction H as [|[o xi] [o' xi'] l l' [Ho [Hf [Hx [Hp _]]]] _ IH]; [reflexivity|].
+  cbn [forallb fst snd] in *. rewrite Hf, Hp, IH. reflexivity.
+Qed.
+
 Lemma xpile_fits_cong mw s a b fp :
   Forall2 (xprel mw s) a b -> mw = xpile_max_width b ->
   (is_fixed s = false -> 0 <= fst s) -> (is_fixed s = true -> 0 <= mw) ->
   xpile_fits a fp s = xpile_fits b fp s.
 Proof.
   intros H Emw Hs Hm. pose proof (xprel_stat _ _ _ _ H) as Hst. unfold xpile_fits.
-  rewrite (xpile_rows_sizes_cong mw s a b H Emw Hs Hm), (xpile_max_width_stat _ _ Hst), (xpile_widths_stat _ _ (fst s) Hst).
+  rewrite (xpile_rows_sizes_cong mw s a b H Emw Hs Hm), (xpile_max_width_stat _ _ Hst), (xpile_widths_stat _ _ (fst s) Hst),
+    (xpile_samewidth_stat _ _ (xpile_max_width b) Hst).
   assert (El : zlen a = zlen b) by (unfold zlen; rewrite (forall2_length _ _ _ H); reflexivity). rewrite El.
   rewrite (xpile_wtotal_opts a b (fst s)); [reflexivity|].
   apply (forall2_map_fst (xprel mw s)); [intros x y [E _]; exact E|exact H].
